@@ -677,6 +677,82 @@ def check_identifier_encoder(ctx):
     ctx.note('an empty identifier part prints as `` which the ID pattern (`[^`]+`) does not accept - listed')
 
 
+def check_id_text_decoded(ctx):
+    """The `id` nonterminal hands the token text on as it was written - a back-quoted name still carries its quotes.  Every action that turns such a text into a name
+    (Identifier) must take the quotes off (Identifier(path_str) / the path decoder): an Identifier whose `parts` still hold a back-quote is printed with the quotes
+    doubled (``a b``), which is not the name and does not lex.  Every action with `id` / `column_list` in its production that builds an Identifier is interpreted
+    (real Identifier constructor) with a back-quoted id."""
+    from ..interp import Interp, Obj, Raised, Env
+    from ..grammar import prod_record
+    from ..lexmodel import spelling
+    n = nskip = 0
+    for d in DIALECTS:
+        g = load_dialect(ctx.src, d)
+        ast_files = tuple(sorted(f for f in ctx.src.py_files('mindsdb_sql/parser') if '/ast/' in f))
+        tok_stubs = lexer_token_stubs(ctx)
+        for p_ in g.productions[1:]:
+            if p_.from_star or p_.func is None or not ({'id', 'column_list'} & set(p_.rhs)) or p_.name in ('id', 'column_list'):
+                continue
+            if not any(isinstance(x, ast.Call) and dotted(x.func) == 'Identifier' for x in ast.walk(p_.func)):
+                continue
+
+            def ident(name):
+                return Obj('Identifier', parts=[name], alias=None, parentheses=False)
+            values = []
+            for s_ in p_.rhs:
+                if s_ == 'id':
+                    values.append('`a b`')
+                elif s_ == 'column_list':
+                    values.append(['`c d`', 'e'])
+                elif s_ in g.tokens:
+                    values.append(spelling(g.lexer, s_) or s_)
+                elif s_ == 'identifier':
+                    values.append(ident('n'))
+                elif s_ in ('query', 'select', 'union'):
+                    values.append(Obj('Select', targets=[ident('x'), ident('y')], alias=None, parentheses=False, from_table=None, where=None, cte=None))
+                elif s_ == 'raw_query':
+                    values.append([Obj('Token', type='SELECT', value='select', index=0, end=6, lineno=1)])
+                elif s_ == 'kw_parameter_list':
+                    values.append({'k': 1})
+                else:
+                    values.append(None)
+            stubs = dict(tok_stubs)
+            stubs['tokens_to_string'] = lambda it, toks: 'select'
+            it = Interp.for_file(ctx.src, g.file, {'Select': set(), 'Identifier': set()}, stubs, also=ast_files)
+            label = f'{d}:[{p_}]'
+            try:
+                node = it.call_function(p_.func, [Obj('Parser'), prod_record(p_, values)], {}, Env())
+            except Raised as r:
+                if r.exc_name != 'ParsingException':
+                    nskip += 1
+                continue
+            except (AnalysisError, TypeError, ValueError, AttributeError, KeyError, IndexError) as e:
+                ctx.note(f'{label}: not interpretable on stand-in values ({type(e).__name__}: {str(e)[:80]})')
+                nskip += 1
+                continue
+            n += 1
+            bad, seen, todo = [], set(), [node] + values
+            while todo:
+                x = todo.pop()
+                if id(x) in seen:
+                    continue
+                seen.add(id(x))
+                if isinstance(x, Obj):
+                    if x.kind == 'Identifier' and any(isinstance(pt, str) and '`' in pt for pt in (x.attrs.get('parts') or [])):
+                        bad.append(list(x.attrs['parts']))
+                    todo.extend(x.attrs.values())
+                elif isinstance(x, (list, tuple)):
+                    todo.extend(x)
+                elif isinstance(x, dict):
+                    todo.extend(x.values())
+            ctx.ob('C04.id-text-decoded', label, not bad,
+                   f'{label}: with the back-quoted name `a b` the action builds an Identifier with the parts {bad[0] if bad else ""} - the quotes of the token text are '
+                   f'kept as part of the name, so the name is not the one written and is printed as ``a b``', file=g.file, line=p_.func.lineno,
+                   witness='select * from (select 1) as `a b`')
+    ctx.setcount('id_to_identifier_actions', n)
+    ctx.floor('id_to_identifier_actions', 3)
+
+
 def run(ctx):
     ctx.explanation = (
         'Agreement of finite tables, statically extracted: for each dialect and each quoted-string token the literal syntax the '
@@ -709,6 +785,7 @@ def run(ctx):
     for f in sub.findings:
         ctx.ob('C04.number-printer', f.construct, False, f.msg, file=f.file, line=f.line, witness=f.witness)
     check_identifier_encoder(ctx)
+    check_id_text_decoded(ctx)
     ctx.sample({'value_probes': VALUE_PROBES[:10]})
     ctx.floor('string_decoders', 6)
     ctx.floor('entry_text_probes', 1000)
